@@ -8,18 +8,18 @@ import (
 // set is the common face of the three implementations. Everything here is a direct call of one
 // golib method; no logic of its own apart from the iterator driving loop.
 type set interface {
-	ep() string                    // type name used in signatures
-	root() any                     // pointer to the real object (for the canonical dump)
-	add(v uint) (res, has bool)    // has = the method reports a result
+	ep() string                 // type name used in signatures
+	root() any                  // pointer to the real object (for the canonical dump)
+	add(v uint) (res, has bool) // has = the method reports a result
 	remove(v uint) (res, has bool)
 	contains(v uint) bool
-	lens() []lenObs // every way of asking for the cardinality
+	lens() (int, [2]lenObs) // every way of asking for the cardinality
 	capv() int
 	grow(n uint)
 	// iter drives Iter(): mode 0 reads Value once per step, mode 1 twice (unstable = the two
 	// reads differ), mode 2 never (the result holds one zero per successful Next). It gives up
-	// after max+1 values.
-	iter(max, mode int) (seq []uint, unstable bool)
+	// after max+1 values. The result is appended to buf[:0].
+	iter(buf []uint, max, mode int) (seq []uint, unstable bool)
 	hasRange() bool
 	rangeFn(fn func(uint) bool)
 	hasAll() bool
@@ -43,8 +43,8 @@ func newSet(k sysKind) set {
 	return &dszW{}
 }
 
-func drive(next func() bool, value func() uint, max, mode int) (seq []uint, unstable bool) {
-	seq = make([]uint, 0, max+1)
+func drive(buf []uint, next func() bool, value func() uint, max, mode int) (seq []uint, unstable bool) {
+	seq = buf[:0]
 	for next() {
 		switch mode {
 		case 0:
@@ -74,14 +74,14 @@ func (w *bitsW) root() any                  { return &w.b }
 func (w *bitsW) add(v uint) (bool, bool)    { return w.b.Add(v), true }
 func (w *bitsW) remove(v uint) (bool, bool) { return w.b.Remove(v), true }
 func (w *bitsW) contains(v uint) bool       { return w.b.Contains(v) }
-func (w *bitsW) lens() []lenObs {
-	return []lenObs{{"Len", w.b.Len()}, {"Bitmap.Len", w.b.Bitmap.Len()}}
+func (w *bitsW) lens() (int, [2]lenObs) {
+	return 2, [2]lenObs{{"Len", w.b.Len()}, {"Bitmap.Len", w.b.Bitmap.Len()}}
 }
 func (w *bitsW) capv() int   { return w.b.Cap() }
 func (w *bitsW) grow(n uint) { w.b.Grow(n) }
-func (w *bitsW) iter(max, mode int) ([]uint, bool) {
+func (w *bitsW) iter(buf []uint, max, mode int) ([]uint, bool) {
 	it := w.b.Iter()
-	return drive(it.Next, it.Value, max, mode)
+	return drive(buf, it.Next, it.Value, max, mode)
 }
 func (w *bitsW) hasRange() bool             { return true }
 func (w *bitsW) rangeFn(fn func(uint) bool) { w.b.Range(fn) }
@@ -117,12 +117,12 @@ func (w *bitmapW) root() any                  { return &w.b }
 func (w *bitmapW) add(v uint) (bool, bool)    { return w.b.Add(v), true }
 func (w *bitmapW) remove(v uint) (bool, bool) { return w.b.Remove(v), true }
 func (w *bitmapW) contains(v uint) bool       { return w.b.Contains(v) }
-func (w *bitmapW) lens() []lenObs             { return []lenObs{{"Len", w.b.Len()}} }
+func (w *bitmapW) lens() (int, [2]lenObs)     { return 1, [2]lenObs{{"Len", w.b.Len()}} }
 func (w *bitmapW) capv() int                  { return w.b.Cap() }
 func (w *bitmapW) grow(n uint)                { w.b.Grow(n) }
-func (w *bitmapW) iter(max, mode int) ([]uint, bool) {
+func (w *bitmapW) iter(buf []uint, max, mode int) ([]uint, bool) {
 	it := w.b.Iter()
-	return drive(it.Next, it.Value, max, mode)
+	return drive(buf, it.Next, it.Value, max, mode)
 }
 func (w *bitmapW) hasRange() bool             { return true }
 func (w *bitmapW) rangeFn(fn func(uint) bool) { w.b.Range(fn) }
@@ -150,12 +150,12 @@ func (w *dszW) root() any                  { return &w.b }
 func (w *dszW) add(v uint) (bool, bool)    { w.b.Add(v); return false, false }
 func (w *dszW) remove(v uint) (bool, bool) { w.b.Remove(v); return false, false }
 func (w *dszW) contains(v uint) bool       { return w.b.Contains(v) }
-func (w *dszW) lens() []lenObs             { return []lenObs{{"Len", w.b.Len()}} }
+func (w *dszW) lens() (int, [2]lenObs)     { return 1, [2]lenObs{{"Len", w.b.Len()}} }
 func (w *dszW) capv() int                  { return w.b.Cap() }
 func (w *dszW) grow(n uint)                { w.b.Grow(n) }
-func (w *dszW) iter(max, mode int) ([]uint, bool) {
+func (w *dszW) iter(buf []uint, max, mode int) ([]uint, bool) {
 	it := w.b.Iter()
-	return drive(it.Next, it.Value, max, mode)
+	return drive(buf, it.Next, it.Value, max, mode)
 }
 func (w *dszW) hasRange() bool             { return false }
 func (w *dszW) rangeFn(fn func(uint) bool) { panic("harness: dsz.Bits has no Range") }
